@@ -53,3 +53,14 @@ package main
 //@   prop C15
 //@   safety none
 //@   oncall NewHTTPIndexHandler: requires $arg1 == opt.writable && $arg2 == opt.auth
+
+// ---------------------------------------------------------------------------- C01
+
+//# extract --seed-dir: the index being extracted is never taken as a seed for its own target, however the
+//# seed directory and the index argument are spelled (compared by absolute path); every seed is made for
+//# this extract's target from the blob next to its index
+//@ func readSeedDirs
+//@   prop C01
+//@   safety none
+//@   lit 1: requires absIn == absOf(dstIdxFile)
+//@   lit 1: oncall NewIndexSeed: requires absOf(path) != absOf(dstIdxFile) && $arg0 == dstFile && $arg1 == trimSuffix(path, ".caibx")
